@@ -118,7 +118,7 @@ fn check(case: &Case, obs: &mut Obs) -> Verdict {
 // --- bulk window of integers -------------------------------------------------------------
 
 fn run_window(ctx: &mut Ctx) {
-    let (lo, hi): (i64, i64) = ctx.tier.pick((-(1 << 22), 1 << 22), (-((1i64 << 32) - 1), (1i64 << 32) - 1));
+    let (lo, hi): (i64, i64) = ctx.tier.pick((-(1 << 24), 1 << 24), (-((1i64 << 32) - 1), (1i64 << 32) - 1));
     let threads = ctx.threads.max(1) as i64;
     let total = hi - lo + 1;
     let chunk = (total + threads - 1) / threads;
@@ -298,9 +298,9 @@ fn subs() -> Vec<Sub> {
     vec![
         custom_sub::<Case>("window", run_window, check),
         enum_sub("powers", powers, check),
-        gen_sub("lists", lists, |t| t.pick(20_000, 2_000_000), check),
+        gen_sub("lists", lists, |t| t.pick(200_000, 2_000_000), check),
         enum_sub("all_strings", all_strings, check),
-        gen_sub("long_strings", long_strings, |t| t.pick(40_000, 4_000_000), check),
+        gen_sub("long_strings", long_strings, |t| t.pick(400_000, 4_000_000), check),
         enum_sub("alphabet", alphabet, check),
     ]
 }
